@@ -443,7 +443,7 @@ fn main() {
             rep.note("exhaustive_bound", json!(format!("all {}^1 + {}^2 + {}^3 sequences x 2 shard counts", a, a, a)));
         } else {
             // random sample of length-3 sequences
-            let n3 = cli.cases(20_000, 0);
+            let n3 = cli.cases(100_000, 0);
             for s in 0..n3 {
                 let mut rng = Rng::for_case(cli.seed, cli.shard, (2u64 << 40) | s);
                 let ops: Vec<SOp> = (0..3).map(|_| alpha[rng.usize(alpha.len())].clone()).collect();
@@ -466,7 +466,7 @@ fn main() {
         }
     }
     // ---------- random long sequences
-    let n = cli.cases(300, 20_000);
+    let n = cli.cases(1_200, 20_000);
     for s in cli.index_range(n) {
         if s >> 40 != 0 {
             continue;
